@@ -56,11 +56,18 @@ class KalmanSolver(Solver):
 
         self.X = X
         Pinf = kernel.stationary_covariance()
-        self.A = jax.vmap(kernel.transition_matrix)(
+        A = jax.vmap(kernel.transition_matrix)(
             jax.tree_util.tree_map(lambda y: jnp.append(y[0], y[:-1]), X), X
         )
-        self.H = jax.vmap(kernel.observation_model)(X)
-        self.s, self.K = kalman_gains(Pinf, self.A, self.H, noise.diag)
+        H = jax.vmap(kernel.observation_model)(X)
+
+        # With the conventions of "Quasisep.evaluate" and "to_symm_qsm", the
+        # covariance is the one of this state space model run from the last
+        # data point to the first, so that's the order we filter in. The two
+        # orders only coincide when all observation models are parallel.
+        self.A = jnp.concatenate((A[:1], A[:0:-1]))
+        self.H = H[::-1]
+        self.s, self.K = kalman_gains(Pinf, self.A, self.H, noise.diag[::-1])
 
     def variance(self) -> JAXArray:
         raise NotImplementedError
@@ -73,7 +80,7 @@ class KalmanSolver(Solver):
 
     def solve_triangular(self, y: JAXArray, *, transpose: bool = False) -> JAXArray:
         assert not transpose
-        return kalman_filter(self.A, self.H, self.K, y) / jnp.sqrt(self.s)
+        return kalman_filter(self.A, self.H, self.K, y[::-1]) / jnp.sqrt(self.s)
 
     def dot_triangular(self, y: JAXArray) -> JAXArray:
         del y
